@@ -34,7 +34,7 @@ func init() {
 		New:         func() any { return &C08Case{} },
 		Check:       func(c any) Result { return checkC08(c.(*C08Case)) },
 		Quick:       2000,
-		Thorough:    10000,
+		Thorough:    100000,
 	})
 }
 
